@@ -566,20 +566,20 @@ pub fn run(tier: Tier, reg: &[VT]) -> Report {
 	let mut rep = Report::new("C06", tier);
 	let t = tier.thorough();
 
-	let d = if t { 7 } else { 6 };
+	let d = if t { 8 } else { 7 };
 	rep.part("VecDeque<u8>", &format!("all histories of <= {} ops {{push_front, push_back, pop_front, pop_back, rotate_left, make_contiguous, reserve, shrink_to_fit}} from 3 seeds (empty, full wrapped ring, front-loaded)", d), explore_machine(&DequeM::<u8>(Default::default()), d));
-	let d2 = if t { 6 } else { 5 };
+	let d2 = if t { 7 } else { 6 };
 	rep.part("VecDeque<u32>", &format!("bulk two-slice path, histories of <= {} ops", d2), explore_machine(&DequeM::<u32>(Default::default()), d2));
 	rep.part("VecDeque<Option<u8>>", &format!("element path, histories of <= {} ops", d2), explore_machine(&DequeM::<Option<u8>>(Default::default()), d2));
 	rep.part("VecDeque<String>", &format!("element path, histories of <= {} ops", d2), explore_machine(&DequeM::<String>(Default::default()), d2));
-	let dv = if t { 9 } else { 7 };
+	let dv = if t { 10 } else { 8 };
 	rep.part("Vec / String capacity", &format!("histories of <= {} ops {{push, pop, reserve, shrink_to_fit, truncate}} from empty and with_capacity(100)", dv), explore_machine(&VecM, dv));
-	let dl = if t { 8 } else { 6 };
+	let dl = if t { 9 } else { 7 };
 	rep.part("LinkedList / BinaryHeap", &format!("histories of <= {} ops incl. split_off+append and heap rebuild", dl), explore_machine(&ListM, dl));
-	let dt = if t { 6 } else { 5 };
+	let dt = if t { 7 } else { 6 };
 	rep.part("BTreeMap / BTreeSet (from empty)", &format!("all insert/remove histories of <= {} ops over a 4-key alphabet, no merging", dt), explore_machine(&TreeM { seed_sizes: vec![] }, dt));
 	rep.part("BTreeMap / BTreeSet (multi-node seeds)", "histories of <= 3 ops from seeds of 12, 24, 100 keys built ascending, descending, interleaved and by insert-then-remove", explore_machine(&TreeM { seed_sizes: vec![12, 24, 100] }, 3));
-	let db = if t { 11 } else { 9 };
+	let db = if t { 12 } else { 10 };
 	rep.part("BitVec push/pop", &format!("histories of <= {} ops {{push 0, push 1, pop, drop first bit}}", db), explore_machine(&BitsM, db));
 
 	// sub-slices at every bit offset
